@@ -68,6 +68,10 @@ ViewViolations(ev) ==
   \cup (IF \E k \in DOMAIN ev.views : ev.views[k].n \in wasLeft[ev.o] /\ ev.views[k].st # "left"
         THEN {"LeftIsFinal"} ELSE {})
 LeftIn(ev) == {ev.views[k].n : k \in {j \in DOMAIN ev.views : ev.views[j].st = "left"}}
+\* a registry read from the node after its proxy port was seen closed: the node closes its proxy only once it
+\* no longer has (and advertises) upstreams
+RegViolations(ev) ==
+  IF ev.after = "proxy-closed" /\ ev.reg # <<>> THEN {"StoppedNodeAdvertisesNothing"} ELSE {}
 
 \* ---- the trace --------------------------------------------------------------
 NoConn == [x \in Lsn |-> "none"]
@@ -107,8 +111,11 @@ Event ==
           [] ev.k = "exited" -> Dead(Log[l].victim) /\ UNCHANGED vars
           [] ev.k = "view" -> MatchesView(ev) /\ UNCHANGED vars
           [] ev.k = "reg" -> MatchesReg(ev) /\ UNCHANGED vars
+          [] ev.k = "proxy" -> ~ProxyOpen(ev.o) /\ UNCHANGED vars   \* its proxy port refuses connections
           [] OTHER -> UNCHANGED vars
-     /\ viol' = IF ev.k = "view" THEN ViewViolations(ev) ELSE {}
+     /\ viol' = IF ev.k = "view" THEN ViewViolations(ev)
+                ELSE IF ev.k = "reg" THEN RegViolations(ev)
+                ELSE {}
      /\ wasLeft' = IF ev.k = "view" THEN [wasLeft EXCEPT ![ev.o] = @ \cup LeftIn(ev)] ELSE wasLeft
   /\ i' = i + 1
   /\ UNCHANGED <<l, drift>>
@@ -135,8 +142,10 @@ EndLoss ==
 \* ... or it could not be followed (layer A): the rest of it is still judged on its own
 GiveUp ==
   /\ i >= 1 /\ i <= Len(Log[l].tl)
-  /\ LET rest == {k \in i..Len(Log[l].tl) : Log[l].tl[k].k = "view"} IN
+  /\ LET rest == {k \in i..Len(Log[l].tl) : Log[l].tl[k].k = "view"}
+         rregs == {k \in i..Len(Log[l].tl) : Log[l].tl[k].k = "reg"} IN
      viol' = LossViolations(Log[l]) \cup UNION {ViewViolations(Log[l].tl[k]) : k \in rest}
+                                    \cup UNION {RegViolations(Log[l].tl[k]) : k \in rregs}
   /\ l' = l + 1 /\ i' = 0 /\ drift' = drift + 1
   /\ SetTo(NoConn)
   /\ UNCHANGED wasLeft
